@@ -2,7 +2,7 @@
 """Development helper (never part of a registered command):
    seed.py verify <srcdir> <name> <pid>   confirm a candidate seeded change and store it under seeded/<name>/
    seed.py run <name> [pid ...]           apply seeded/<name>/patch.diff to /repo, run the checks, undo"""
-import json, os, shutil, subprocess, sys, time
+import json, os, re, shutil, subprocess, sys, time
 VERIF = os.path.dirname(os.path.dirname(os.path.abspath(__file__)))
 REPO = "/repo"
 
@@ -44,23 +44,35 @@ def verify(src, name, pid):
 
 
 def run(name, pids):
+    """Runs in a scratch copy of /verif against a scratch worktree of /repo with the patch applied
+    (same effect as `git -C /repo apply` + check + `git -C /repo checkout -- .`, but lets several runs
+    go in parallel and leaves /repo and /verif/coq/gen alone)."""
     dst = os.path.join(VERIF, "seeded", name)
     meta = json.load(open(os.path.join(dst, "meta.json")))
     pids = pids or [meta["property"]]
-    assert sh("git -C %s status --porcelain" % REPO).stdout.strip() == "", "repo not clean"
-    a = sh("git -C %s apply %s" % (REPO, os.path.join(dst, "patch.diff")))
-    assert a.returncode == 0, a.stderr
+    wt = "/tmp/seedrun_%s" % name
+    vc = "/tmp/vrun_%s" % name
+    sh("git -C %s worktree remove --force %s" % (REPO, wt))
+    sh("rm -rf %s" % vc)
+    assert sh("git -C %s worktree add --detach %s HEAD" % (REPO, wt)).returncode == 0
     out = {}
     try:
+        a = sh("git -C %s apply %s" % (wt, os.path.join(dst, "patch.diff")))
+        assert a.returncode == 0, a.stderr
+        assert sh("cp -r %s %s" % (VERIF, vc)).returncode == 0
         for pid in pids:
             t0 = time.time()
-            r = sh("cd %s && ./check %s --tier quick" % (VERIF, pid), timeout=3600)
+            r = sh("cd %s && VERIF_REPO=%s ./check %s --tier quick" % (vc, wt, pid), timeout=3600)
             lines = [l for l in r.stdout.split("\n") if l.startswith("VIOLATION") or l.startswith("  ")]
-            out[pid] = {"exit": r.returncode, "first": lines[:2], "wall": round(time.time() - t0)}
+            out[pid] = {"exit": r.returncode, "first": [l.replace(vc, "/verif") for l in lines[:2]], "wall": round(time.time() - t0)}
             print(name, pid, "exit", r.returncode, (lines[:2] or [r.stdout[-200:]]), flush=True)
+            if os.environ.get("KEEP_REPLAY") and lines:
+                m = re.search(r"replay=(\S+)", lines[0])
+                if m and os.path.exists(m.group(1)):
+                    shutil.copy(m.group(1), "/tmp/replay_%s_%s.json" % (name, pid))
     finally:
-        sh("git -C %s checkout -- ." % REPO)
-        assert sh("git -C %s status --porcelain" % REPO).stdout.strip() == ""
+        sh("git -C %s worktree remove --force %s" % (REPO, wt))
+        sh("rm -rf %s" % vc)
     meta["detected_by"].update({p: (v["exit"] == 1) for p, v in out.items()})
     meta.setdefault("runs", {}).update(out)
     json.dump(meta, open(os.path.join(dst, "meta.json"), "w"), indent=1)
